@@ -59,7 +59,7 @@ class CsgScatterer(Scatterer):
         centers = np.array([s.center for s in (self.s1, self.s2)])
         new_centers = self.center + rotate_points(centers - self.center, alpha, beta, gamma)
 
-        s1, s2 = [s.translated(*(c-n)).rotated(alpha, beta, gamma) for s, c, n
+        s1, s2 = [s.translated(*(n-c)).rotated(alpha, beta, gamma) for s, c, n
                   in zip((self.s1, self.s2), centers, new_centers)]
         return self.__class__(s1, s2)
 
